@@ -264,6 +264,41 @@ def r08_3(ctx: Ctx) -> None:
                    "a window over the sorted feature list runs from the lower bisection point to the upper bisection point, so "
                    "features tying with the searched one are inside the window",
                    detail="" if ok else f"the {role} bound derives from bisect_{kind}", form=f"{txt(node)} [{role}: bisect_{kind}]")
+    # a window that starts one element before a bisection point must not wrap to the end of the list when that point is 0
+    from ..flow import effective_compare, oriented, path_facts
+    for qual, func in ctx.repo.functions(REC):
+        fcfg = None
+        bisected = {t.id for n in walk_local(func) if isinstance(n, ast.Assign) and isinstance(n.value, ast.Call)
+                    and call_name(n.value).split(".")[-1].startswith("bisect") for t in n.targets if isinstance(t, ast.Name)}
+        for node in walk_local(func):
+            if not (isinstance(node, ast.Subscript) and isinstance(node.slice, ast.Slice) and node.slice.lower is not None):
+                continue
+            lower, clamped = node.slice.lower, False
+            if isinstance(lower, ast.Call) and call_name(lower) == "max" and len(lower.args) == 2 \
+                    and any(isinstance(a, ast.Constant) and a.value == 0 for a in lower.args):
+                lower, clamped = next(a for a in lower.args if not (isinstance(a, ast.Constant) and a.value == 0)), True
+            if not (isinstance(lower, ast.BinOp) and isinstance(lower.op, ast.Sub) and isinstance(lower.left, ast.Name)
+                    and lower.left.id in bisected and isinstance(lower.right, ast.Constant)):
+                continue
+            fcfg = fcfg or CFG(func)
+            name, back = lower.left.id, lower.right.value
+            stmt = next(a for a in _anc(node) if isinstance(a, ast.stmt))
+            guarded = clamped
+            for e, t in path_facts(fcfg, stmt, fresh_only=True):
+                cmp_ = effective_compare(e, t)
+                cmp_ = oriented(cmp_, lambda x: txt(x) == name) if cmp_ else None
+                if cmp_ is not None and isinstance(cmp_[2], ast.Constant) and isinstance(cmp_[2].value, int) and \
+                        (cmp_[1] == ">=" and cmp_[2].value >= back or cmp_[1] == ">" and cmp_[2].value >= back - 1):
+                    guarded = True
+                if t and txt(e) == name and back == 1:
+                    guarded = True
+            count += 1
+            ctx.ob("R08.3", REC, node, qual, f"window start {txt(lower)} cannot go negative", guarded,
+                   "a window starting before a bisection point is clamped at the start of the list: a negative slice start counts "
+                   "from the end, so the window would miss the first element(s) exactly when the searched feature sorts first",
+                   detail="" if guarded else f"`{txt(node)}`: with {name} == 0 the slice starts at the last element - with three regions and "
+                   f"a gene located exactly at the first region, the gene is linked to no region when it is added after the regions",
+                   form=txt(node))
     helper = ctx.fn(REC, "Record.get_cds_features_within_location.find_start_in_list")
     hparams = [a.arg for a in helper.args.args]
     starts = [n for n in walk_local(helper) if isinstance(n, ast.Assign) and isinstance(n.value, ast.Call)
